@@ -64,12 +64,12 @@ def set_value_seed(seed):
             _REV[lf] = name + "~lf"
 
 
-set_value_seed(0)
+_USE_CLASSES = [False]      # value-class naming is only active in runs that use class tokens (C01)
 
 
 def tok(v):
     """real property value -> opaque token compared by the spec"""
-    if isinstance(v, str) and v in _REV:
+    if _USE_CLASSES[0] and isinstance(v, str) and v in _REV:
         return "s:" + _REV[v]
     if isinstance(v, bool):
         return "b:true" if v else "b:false"
@@ -370,9 +370,11 @@ class StoreRunner:
         raise ValueError("unknown abstract op " + op)
 
 
-def run_script(script, backend, fmt="graphml", vseed=0):
+def run_script(script, backend, fmt="graphml", vseed=None):
     """Execute a list of abstract ops on a fresh store; return the trace (init state + one line per op)."""
-    set_value_seed(vseed)
+    _USE_CLASSES[0] = vseed is not None
+    if vseed is not None:
+        set_value_seed(vseed)
     r = StoreRunner(backend, fmt)
     steps = []
     prev = None
